@@ -28,7 +28,34 @@ theorem different_inputs_different_addresses {α : Type} {isCid : String → Boo
 /-- **the printed address parses back to the same root and path** -/
 theorem printed_address_parses_back {isCid : String → Bool} {h name : String} {a : Addr}
     (hc : isCid h = true) (hh : Seg h) (hd : determine isCid h name = some a) :
-    parse isCid (print a) = some a := determine_parse_print hc hh hd
+    parse isCid (print a) = some a := parse_print_of_parse0 (determine_parse_print hc hh hd)
+
+/-- **whatever string `Open` accepts as an address names the database it prints as**: the printed
+form (`String()`, which cleans) splits back to the same root — `address.Parse` after the `fix:` commit
+refuses an address whose path climbs out of its root (finding F28) -/
+theorem accepted_address_prints_as_the_same_database {isCid : String → Bool} {s : String} {a : Addr}
+    (h : parse isCid s = some a) : ∃ b, parse0 isCid (print a) = some b ∧ b.root = a.root :=
+  parse_print_same_root h
+
+/-- Refutation witness for the tree before that repair: `/orbitdb/@A/../@B/x` was split into root
+`@A` (whose manifest — type and write list — the store was opened with) and path `../@B/x`, and the
+store then printed its address as `/orbitdb/@B/x`: another database's address with `@A`'s write list
+(replayed on the real code: corpus/C14/f28). Now it is refused. -/
+theorem climbing_address_was_opened_as_another_database_before_the_fix :
+    parse0 atCid "/orbitdb/@A/../@B/x" = some ⟨"@A", "../@B/x"⟩ ∧
+    print ⟨"@A", "../@B/x"⟩ = "/orbitdb/@B/x" ∧
+    parse atCid "/orbitdb/@A/../@B/x" = none := by
+  have h0 : parse0 atCid "/orbitdb/@A/../@B/x" = some ⟨"@A", "../@B/x"⟩ := by decide
+  have hp : print ⟨"@A", "../@B/x"⟩ = "/orbitdb/@B/x" := by decide
+  refine ⟨h0, hp, ?_⟩
+  unfold parse
+  rw [h0]
+  have hg : staysBelowRoot atCid ⟨"@A", "../@B/x"⟩ = false := by
+    unfold staysBelowRoot
+    rw [hp]
+    have h1 : parse0 atCid "/orbitdb/@B/x" = some ⟨"@B", "x"⟩ := by decide
+    rw [h1]; decide
+  simp [hg]
 
 /-- exactly which names are accepted, and with what address -/
 theorem accepted_names {isCid : String → Bool} {h : String} (hc : isCid h = true) (hh : Seg h)
